@@ -37,7 +37,14 @@ let arr_to_array (a : arr) : int array =
 let d : dec ref = ref dec_default
 let buf : arr ref = ref (amake N0 N0)
 
-let reset () = d := dec_default; buf := amake N0 N0
+let is : istream ref = ref (is_new FRaw)
+let reset () = d := dec_default; buf := amake N0 N0; is := is_new FRaw
+let fmt_of i = match i with 0 -> FZlib | 1 -> FZlibIgnore | _ -> FRaw
+let sched3_of (s : string) : (int * int * int) list =
+  List.map (fun it ->
+      match String.split_on_char ':' it with
+      | [a; b; c] -> (num a, num b, num c)
+      | _ -> failwith "bad sched") (String.split_on_char ',' s)
 
 let adler_str (r : dec) = match dec_adler32 r with Some x -> string_of_int (int_of_n x) | None -> "-1"
 
@@ -62,14 +69,18 @@ let exec (a : string array) (_input : int array ref) (bytes : string -> int arra
       | Panic _ -> d := dec_default; buf := amake N0 N0; Some "PANIC"
       | OutOfFuel -> Some "MODEL-OUT-OF-FUEL"
       | Ret r ->
+          let before = arr_to_array !buf in
           d := r.cr_dec; buf := r.cr_buf;
           let b = arr_to_array r.cr_buf in
           let oc = int_of_n r.cr_out in
           let lo = min pos (Array.length b) in
           let hi = min (pos + oc) (Array.length b) in
-          Some (Printf.sprintf "st=%d in=%d out=%d o=%s bh=%016Lx ad=%s"
+          let same = ref true in
+          Array.iteri (fun i x -> if (i < lo || i >= hi) && before.(i) <> x then same := false) b;
+          Some (Printf.sprintf "st=%d in=%d out=%d o=%s bh=%016Lx ad=%s outside=%s"
                   (int_of_z (status_code r.cr_status)) (int_of_n r.cr_in) oc
-                  (show (Array.sub b lo (hi - lo))) (fnv b) (adler_str r.cr_dec))
+                  (show (Array.sub b lo (hi - lo))) (fnv b) (adler_str r.cr_dec)
+                  (if !same then "same" else "CHANGED"))
     end
   | "drive" -> begin
       let inp = nlist_of_array (bytes a.(1)) in
@@ -94,5 +105,88 @@ let exec (a : string array) (_input : int array ref) (bytes : string -> int arra
                   (int_of_z s.ds_last) (int_of_n s.ds_in_off) (Array.length out) (int_of_n s.ds_calls) whys
                   (show out) (fnv (arr_to_array s.ds_buf)) th (adler_str s.ds_dec)
                   (if Buffer.length tr = 0 then "-" else Buffer.contents tr))
+    end
+  | "isnew" -> is := is_new (fmt_of (num a.(1))); Some "ok"
+  | "isreset" ->
+      (match num a.(1) with
+       | 0 -> is := min_reset !is
+       | 1 -> is := zero_reset !is
+       | _ -> is := full_reset (fmt_of (num a.(2))) !is);
+      Some "ok"
+  | "iscall" -> begin
+      match inflate !is (nlist_of_array (bytes a.(1))) (n_of_int (num a.(2))) (n_of_int (num a.(3))) with
+      | Panic _ -> is := is_new FRaw; Some "PANIC"
+      | OutOfFuel -> Some "MODEL-OUT-OF-FUEL"
+      | Ret r ->
+          is := r.sr_state;
+          let o = array_of_nlist r.sr_out in
+          Some (Printf.sprintf "st=%d in=%d out=%d o=%s ls=%d ad=%s" (int_of_z r.sr_code) (int_of_n r.sr_in)
+                  (Array.length o) (show o) (int_of_z (status_code r.sr_state.is_last)) (adler_str r.sr_state.is_dec))
+    end
+  | "isdrive" -> begin
+      let input = bytes a.(1) in
+      let sc = Array.of_list (sched3_of a.(2)) in
+      let n = Array.length sc in
+      let in_off = ref 0 and out = Buffer.create 256 and calls = ref 0 and stall = ref 0 in
+      let th = ref fnv_init and last = ref 99 and why = ref "cap" and tr = Buffer.create 64 in
+      let panic = ref false in
+      (try
+        while !calls < 200000 do
+          let (nin, nout, fl) = sc.(!calls mod n) in
+          let e = min (!in_off + nin) (Array.length input) in
+          let chunk = Array.sub input !in_off (e - !in_off) in
+          (match inflate !is (nlist_of_array chunk) (n_of_int nout) (n_of_int fl) with
+           | Ret r ->
+               is := r.sr_state;
+               let o = array_of_nlist r.sr_out in
+               Array.iter (fun b -> Buffer.add_char out (Char.chr b)) o;
+               let ic = int_of_n r.sr_in and oc = Array.length o in
+               in_off := !in_off + ic;
+               incr calls;
+               last := int_of_z r.sr_code;
+               th := fnv_step (fnv_step (fnv_step !th (!last + 20000)) ic) oc;
+               if !calls <= 40 then Buffer.add_string tr (Printf.sprintf "%d/%d/%d;" !last ic oc);
+               if !last = 1 || (!last < 0 && !last <> -5) then begin why := "end"; raise Exit end;
+               if ic = 0 && oc = 0 then incr stall else stall := 0;
+               if !stall > n then begin why := "stall"; raise Exit end
+           | _ -> panic := true; raise Exit)
+        done
+      with Exit -> ());
+      if !panic then begin is := is_new FRaw; Some "PANIC" end
+      else begin
+        let o = Array.init (Buffer.length out) (fun i -> Char.code (Buffer.nth out i)) in
+        Some (Printf.sprintf "st=%d in=%d out=%d calls=%d why=%s o=%s th=%016Lx ls=%d ad=%s tr=%s"
+                !last !in_off (Array.length o) !calls !why (show o) !th
+                (int_of_z (status_code !is.is_last)) (adler_str !is.is_dec)
+                (if Buffer.length tr = 0 then "-" else Buffer.contents tr))
+      end
+    end
+  | "dvec" -> begin
+      let z = num a.(1) <> 0 in
+      let inp = nlist_of_array (bytes a.(3)) in
+      match decompress_to_vec_inner inp (if z then n_of_int 1 else N0) (lim a.(2)) with
+      | Panic _ -> Some "PANIC"
+      | OutOfFuel -> Some "MODEL-OUT-OF-FUEL"
+      | Ret (VOk o) -> let o = array_of_nlist o in Some (Printf.sprintf "ok len=%d o=%s" (Array.length o) (show o))
+      | Ret (VErr (st, o)) ->
+          let o = array_of_nlist o in
+          Some (Printf.sprintf "err st=%d len=%d o=%s" (int_of_z (status_code st)) (Array.length o) (show o))
+    end
+  | "dslices" -> begin
+      let z = num a.(1) <> 0 and ig = num a.(2) <> 0 in
+      let inp = bytes a.(4) in
+      let cuts = if a.(5) = "-" then [] else
+          List.sort compare (List.map (fun c -> min (num c) (Array.length inp)) (String.split_on_char ',' a.(5))) in
+      let rec mk prev cs = match cs with
+        | [] -> [nlist_of_array (Array.sub inp prev (Array.length inp - prev))]
+        | c :: rest -> nlist_of_array (Array.sub inp prev (c - prev)) :: mk c rest in
+      match decompress_slice_iter_to_slice (n_of_int (num a.(3))) (mk 0 cuts) z ig with
+      | Panic _ -> Some "PANIC"
+      | OutOfFuel -> Some "MODEL-OUT-OF-FUEL"
+      | Ret ((st, n), o) ->
+          if int_of_z (status_code st) = 0 then begin
+            let b = Array.sub (arr_to_array o) 0 (int_of_n n) in
+            Some (Printf.sprintf "ok len=%d o=%s" (int_of_n n) (show b))
+          end else Some (Printf.sprintf "err st=%d" (int_of_z (status_code st)))
     end
   | _ -> None
